@@ -3419,3 +3419,19 @@ def c07_bits_overflow_cases(seed, tier):
 
 for _p in ("C07", "C01", "C06"):
     _extend(_p, c07_bits_overflow_cases, "plus bits(n, v) with values that do not fit in n bits on columns of signals wider than one bit")
+
+
+def c11_letter_case_cases(seed, tier):
+    """names that differ from a signal's name in letter case only - read in an expression, used as a column, as a C column, as
+    <b>_OUT: signal names are case-sensitive, so these name nothing"""
+    cases = []
+    sg = [{"name": "A", "typ": "I", "bits": 4, "default": "0"}, {"name": "Q", "typ": "O", "bits": 4, "default": "-"}, {"name": "Bus", "typ": "B", "bits": 4, "default": "Z"}]
+    for k, (hdr, rows) in enumerate([("A Q", ["(q) X"]), ("A Q", ["(Q) X", "(a) X"]), ("a Q", ["1 X"]), ("A q", ["1 X"]), ("A Q Bus_OUT", ["1 X X"]), ("A Q bus_out", ["1 X X"]), ("A Q BUS", ["1 X Z"]),
+                                     ("A Q Bus_out", ["1 X (bus)"]), ("A Q", ["let q = 1;", "(q) X"]), ("A Q", ["(Q+q) X", "let q = 2;"]), ("A Q Bus", ["C X (BUS)"]), ("A Q", ["loop(Q,2)", "(q) X", "end loop"])]):
+        cases.append({"id": "c11-lettercase-%d" % k, "kind": "run", "src": "\n".join([hdr] + rows) + "\n", "sigs": [dict(s_) for s_ in sg], "layout": [1, 2], "table": [["3", "5"]],
+                      "echo": 0, "wdefault": 0, "faults": [], "max": 8, "seed": 1 + k, "c11": "a name that differs from a signal in letter case only"})
+    return cases
+
+
+for _p in ("C11", "C06", "C04"):
+    _extend(_p, c11_letter_case_cases, "plus names that differ from a signal's name in letter case only (read, column, C column, _OUT suffix)")
